@@ -120,3 +120,75 @@ def process_branch_symbol(symbol: str):
 @contract("selfies/grammar_rules.py::process_ring_symbol", props=["C02", "C04", "C08", "C18"])
 def process_ring_symbol(symbol: str):
     ensures(result == (RING_DOC[symbol] if symbol in RING_DOC else None), tag="C02,C04:ring-symbol-table")
+
+
+# ------------------------------------------------------------------------------------------------
+# atom symbols: parser (table independent) and the memoising front end (capacity check per call)
+# ------------------------------------------------------------------------------------------------
+GLOBALS = {"selfies/grammar_rules.py::_PROCESS_ATOM_CACHE": "dict"}
+FIELD_TYPES = {
+    "pk_element": "str", "pk_is_aromatic": "bool", "pk_isotope": "int|None", "pk_chirality": "str|None",
+    "pk_h_count": "int|None", "pk_charge": "int|None",
+    "pkhas_element": "bool", "pkhas_is_aromatic": "bool", "pkhas_isotope": "bool", "pkhas_chirality": "bool",
+    "pkhas_h_count": "bool", "pkhas_charge": "bool",
+}
+
+
+@spec
+def atom_factory_ok(p):
+    # a functools.partial(Atom, ...) as stored by the library: element and is_aromatic=False always bound; isotope,
+    # chirality, h_count, charge bound together (bracket form) or not at all (organic subset form)
+    return (typed(p, 'partial') and typed(p.pkhas_element, 'bool') and typed(p.pkhas_is_aromatic, 'bool')
+            and p.pkhas_element and p.pkhas_is_aromatic and typed(p.pk_element, 'str')
+            and p.pk_is_aromatic == False
+            and typed(p.pkhas_isotope, 'bool') and typed(p.pkhas_chirality, 'bool') and typed(p.pkhas_h_count, 'bool')
+            and typed(p.pkhas_charge, 'bool')
+            and (p.pkhas_isotope == p.pkhas_h_count) and (p.pkhas_chirality == p.pkhas_h_count)
+            and (p.pkhas_charge == p.pkhas_h_count)
+            and implies(p.pkhas_h_count, typed(p.pk_isotope, 'int|None') and typed(p.pk_chirality, 'str|None')
+                        and typed(p.pk_h_count, 'int') and p.pk_h_count >= 0 and typed(p.pk_charge, 'int')))
+
+
+@spec
+def atom_entry_ok(e):
+    # what _process_atom_selfies_no_cache returns for an accepted symbol: ((bond order, stereo), atom factory)
+    return (typed(e, 'tuple[tuple[int,str|None],partial]') and 1 <= e[0][0] and e[0][0] <= 3
+            and atom_factory_ok(e[1]))
+
+
+@spec
+def atom_cache_ok():
+    # invariant of the memo table: only accepted symbols are stored, each with a well-formed entry (never None)
+    return (typed(_PROCESS_ATOM_CACHE, 'dict')
+            and all(implies(k in _PROCESS_ATOM_CACHE, atom_entry_ok(_PROCESS_ATOM_CACHE[k])) for k in anyvalue()))
+
+
+@contract("selfies/grammar_rules.py::_process_atom_selfies_no_cache", props=["C02", "C08", "C10", "C11", "C19"])
+def _process_atom_selfies_no_cache(symbol: str):
+    # assumption (stated in the evidence): ASCII symbols of bounded length - non-ASCII decimal digits matched by \d
+    # and numerals beyond CPython's 4300-digit conversion limit are recorded known findings, not covered here
+    requires(ascii_str(symbol) and len(symbol) <= 4000)
+    ensures(typed(result, 'None') or (atom_entry_ok(result) and fresh(result[1])), tag="C02,C08:atom-entry-well-formed")
+    ensures(implies(not typed(result, 'None'), re_fullmatch(SELFIES_ATOM_PATTERN, symbol)),
+            tag="C02:accepted-symbols-match-the-atom-grammar")
+    ensures(implies(not re_fullmatch(SELFIES_ATOM_PATTERN, symbol), typed(result, 'None')),
+            tag="C02:symbols-outside-the-atom-grammar-rejected")
+
+
+@contract("selfies/grammar_rules.py::process_atom_symbol", props=["C01", "C02", "C08", "C10", "C11", "C19"])
+def process_atom_symbol(symbol: str):
+    requires(ascii_str(symbol) and len(symbol) <= 4000)
+    requires(table_ok(_current_constraints) and atom_cache_ok())
+    requires(_PROCESS_ATOM_CACHE != _current_constraints)
+    modifies(_PROCESS_ATOM_CACHE)
+    ensures(atom_cache_ok(), tag="C11,C19:memo-holds-only-well-formed-entries")
+    ensures(typed(result, 'None')
+            or (typed(result, 'tuple[tuple[int,str|None],Atom]') and fresh(result[1])
+                and 1 <= result[0][0] and result[0][0] <= 3
+                and typed(result[1].index, 'None') and result[1].is_aromatic == False
+                and typed(result[1].element, 'str') and typed(result[1].charge, 'int')
+                and typed(result[1].h_count, 'int|None')), tag="C01,C19:fresh-atom-per-call")
+    # the capacity verdict is taken under the table in force AT THIS CALL, never from the memo
+    ensures(implies(not typed(result, 'None'), capH(result[1]) >= 0), tag="C01,C02,C11:capacity-checked-per-call")
+    ensures(table_ok(_current_constraints) and _current_constraints == old(_current_constraints)
+            and same_dict_state(_current_constraints), tag="C08,C11:table-untouched")
